@@ -538,10 +538,26 @@ func ruleKindValueAgree(r *Run) {
 		}
 		// constructors used in this clause (not descending into nested kind-independent helpers)
 		ctors := map[string][]ast.Expr{}
-		for _, st := range cc.Body {
-			ast.Inspect(st, func(n ast.Node) bool {
+		seenHelper := map[*types.Func]bool{}
+		var collect func(root ast.Node, depth int)
+		collect = func(root ast.Node, depth int) {
+			ast.Inspect(root, func(n ast.Node) bool {
 				call, ok := n.(*ast.CallExpr)
 				if !ok {
+					return true
+				}
+				// a helper of the package that builds the parameter for this clause (wellKnownParam(fds, raw, msg))
+				if id, ok := call.Fun.(*ast.Ident); ok && depth < 2 {
+					if fo, ok := info.Uses[id].(*types.Func); ok && fo.Pkg() == p.Lark.Types && !seenHelper[fo] && fo.Name() != "parseParam" {
+						seenHelper[fo] = true
+						for _, f := range p.Lark.Syntax {
+							for _, d := range f.Decls {
+								if fd, ok := d.(*ast.FuncDecl); ok && fd.Body != nil && info.Defs[fd.Name] == types.Object(fo) {
+									collect(fd.Body, depth+1)
+								}
+							}
+						}
+					}
 					return true
 				}
 				sel, ok := call.Fun.(*ast.SelectorExpr)
@@ -554,6 +570,9 @@ func ruleKindValueAgree(r *Run) {
 				ctors[sel.Sel.Name] = append(ctors[sel.Sel.Name], call.Args...)
 				return true
 			})
+		}
+		for _, st := range cc.Body {
+			collect(st, 0)
 		}
 		for _, e := range cc.List {
 			v := constOf(p.Lark, e)
